@@ -31,9 +31,14 @@
             the connection (a script stops at the first wait that ends without its effect): the accepted messages are the
             items up to [inj].  [osig] = signals handed to the connection; [othr] (tcp) = (pong, its handler ran on the
             socket reader's goroutine): in the model the socket reader handles the signals ([ASig]), no loop does.
+   ForcedM: as Forced, at the granularity of the reader's mutex (model Reader/Mutex.v): goroutines are parked inside
+            the mutex sections as well (points "spawned", "relock-held": code 10), other goroutines are let into the
+            held mutex and are seen to block in sync.Mutex.Lock (stack witness); the trace lists [FA a] and
+            [FUnlock o] steps.  [agrees] replays it on the fine-grained model: a step that takes the mutex is not
+            enabled while the mutex is held.
    [pclass] evaluates the property (Reader/Spec.v) on the OBSERVED log only. *)
 From Coq Require Import ZArith NArith List Bool.
-From GoCoap Require Import Base.Cases Reader.Model Reader.Spec Reader.Mid.
+From GoCoap Require Import Base.Cases Reader.Model Reader.Spec Reader.Mid Reader.Mutex.
 Import ListNotations.
 Open Scope Z_scope.
 
@@ -47,7 +52,10 @@ Inductive case :=
         (olog : list Z) (onest : list (Z * Z * bool)) (hang : bool)
 | ConnX (layer : Z) (n : nat) (pr : list (Z * prog)) (msgs : list Z) (sg : list (Z * nat)) (wr : list (Z * (Z * Z)))
         (mids : list (Z * Z * Z * Z)) (inj : Z) (olog : list Z) (osig : list Z) (othr : list (Z * bool))
-        (onest opings : list (Z * Z * bool)) (hang : bool).
+        (onest opings : list (Z * Z * bool)) (hang : bool)
+| ForcedM (n : nat) (pr : list (Z * prog)) (msgs : list Z) (k : nat)
+          (tr : list (fact * Z * nat))         (* step, scheduling point reached by the actor (10: inside a mutex section), loops seen so far *)
+          (olog : list (Z * nat)) (onest : list (Z * Z * bool)) (hang : bool).
 
 (* the repaired code *)
 Definition cfg_of (n : nat) (fx : bool) (pr : list (Z * prog)) (sg : list (Z * nat)) (wr : list (Z * (Z * Z))) : cfg :=
@@ -76,6 +84,31 @@ Fixpoint run_obs (c : cfg) (s : st) (tr : list (act * Z * nat)) : option st :=
       match step c s a with
       | None => None
       | Some s' => if obs_ok s' a o nl then run_obs c s' r else None
+      end
+  end.
+
+(* mutex granularity *)
+Definition fpc_code (f : fstate) (l : nat) : option Z :=
+  match nth_error (loops (base f)) l with
+  | Some lp => Some (match mtx f with
+                     | Some (OLoop h) => if Nat.eqb h l then 10 else pc_code (l_pc lp)
+                     | _ => pc_code (l_pc lp)
+                     end)
+  | None => None
+  end.
+Definition fobs_ok (f : fstate) (fa : fact) (o : Z) (nl : nat) : bool :=
+  Nat.eqb (length (loops (base f))) nl &&
+  match fa with
+  | FA (ALoop l _) | FUnlock (OLoop l) => match fpc_code f l with Some v => v =? o | None => false end
+  | _ => true
+  end.
+Fixpoint frun_obs (c : cfg) (f : fstate) (tr : list (fact * Z * nat)) : option fstate :=
+  match tr with
+  | [] => Some f
+  | (fa, o, nl) :: r =>
+      match fstep c f fa with
+      | None => None
+      | Some f' => if fobs_ok f' fa o nl then frun_obs c f' r else None
       end
   end.
 
@@ -118,6 +151,25 @@ Fixpoint calm_obs (m : list (nat * Z)) (tr : list (act * Z * nat)) : bool :=
       | _ => calm_obs m r
       end
   end.
+(* the same on a fine-grained trace: [FA] steps are the actions of Reader/Model.v, in the same order; between its FA
+   and its FUnlock a loop stands at code 10 (never the window code 2, and it does not act) *)
+Fixpoint fcalm_obs (m : list (nat * Z)) (tr : list (fact * Z * nat)) : bool :=
+  match tr with
+  | [] => true
+  | (fa, o, _) :: r =>
+      let busy := existsb (fun e => snd e =? 2) m in
+      match fa with
+      | FA AExt => negb busy && fcalm_obs m r
+      | FA (ALoop l _) => negb ((get_code l m =? 3) && busy) && fcalm_obs (set_code l o m) r
+      | FUnlock (OLoop l) => fcalm_obs (set_code l o m) r
+      | _ => fcalm_obs m r
+      end
+  end.
+Definition fhas_close (tr : list (fact * Z * nat)) : bool :=
+  existsb (fun e => match fst (fst e) with FA AClose => true | _ => false end) tr.
+Definition fn_pushes (tr : list (fact * Z * nat)) : nat :=
+  length (filter (fun e => match fst (fst e) with FA APush => true | _ => false end) tr).
+
 Definition has_close (tr : list (act * Z * nat)) : bool :=
   existsb (fun e => match fst (fst e) with AClose => true | _ => false end) tr.
 (* messages accepted = pushes that happened *)
@@ -141,6 +193,9 @@ Definition observation (c : case) : obs :=
       mkObs msgs olog true true (negb (blocking pr msgs) && match held with [] => true | _ => false end) onest [] []
   | ConnX layer n pr msgs sg wr mids inj olog osig othr onest opings hang =>
       mkObs (filter (fun m => m <=? inj) msgs) olog true true (negb (blocking pr msgs)) onest osig opings
+  | ForcedM n pr msgs k tr olog onest hang =>
+      mkObs (firstn (fn_pushes tr) msgs) (map fst olog) (negb (fhas_close tr)) (negb hang)
+            (negb (blocking pr msgs) && fcalm_obs [] tr) onest [] []
   end.
 
 (* real connections: compare with the model run under the deterministic scheduler *)
@@ -174,6 +229,13 @@ Definition agrees_shape (fx : bool) (c : case) : bool :=
   | ConnX layer n pr msgs sg wr mids inj olog osig othr onest opings hang =>
       ((layer =? 1) || (layer =? 2)) && mid_ok mids && forallb (fun e => snd e && existsb (fun g => fst g =? fst e) sg) othr && (inj =? Z.of_nat (length msgs + length sg - length (filter (fun e => existsb (Z.eqb (fst e)) msgs) sg))) &&
       connx_agrees n pr msgs sg wr olog (onest ++ opings) hang
+  | ForcedM n pr msgs k tr olog onest hang =>
+      let cf := cfg_of n fx pr [] [] in
+      match frun_obs cf (finit msgs k) tr with
+      | None => false
+      | Some f => negb hang && list_eqb ent_eqb (log (base f)) olog && nest_ok (base f) onest &&
+                  (closed (base f) || fquiescent cf f)
+      end
   end.
 
 (* the correspondence is with the model of the repaired code; [agrees_shape false] (the code before the
